@@ -18,8 +18,8 @@
    One event = one call of the root (Pull::pull, or Future::poll for the consuming futures):
      MCall(polls, st, items, hint)
        polls  the upstream polls made during the call, in order: <<s, answer>>;
-              s >= 1 scripted upstream, s = 0 inner stream made by a closure, s = -1 future
-              made by a closure
+              s >= 1 scripted upstream, s = 0 inner stream made by a closure, s = -j the j-th
+              future made by a closure in this case
        st     "R" (Ready) | "P" (Pending) | "E" (Ended / future completed)
        items  the items handed to the caller by this call (exactly one for "R")
        hint   <<lower, upper>> of size_hint() after the call (upper = -1: None)
@@ -174,7 +174,7 @@ VARIABLES
     fin,        \* number of "E" answers so far
     calls,      \* number of calls so far
     spur,       \* calls that answered "P" although no upstream answered PEND during the call
-    infl,       \* the last poll of a closure-made future answered PEND (a future is in flight)
+    infl,       \* closure-made futures in flight: ids whose last poll answered PEND
     bad         \* set of property-level rules broken so far in this case
 
 mvars == <<tree, rem, eos, ref, fusedT, emitted, fin, calls, spur, infl, bad>>
@@ -189,7 +189,7 @@ MInit(t, scripts) ==
     /\ fin = 0
     /\ calls = 0
     /\ spur = 0
-    /\ infl = FALSE
+    /\ infl = {}
     /\ bad = {}
 
 MReset(t, scripts) ==
@@ -202,7 +202,7 @@ MReset(t, scripts) ==
     /\ fin' = 0
     /\ calls' = 0
     /\ spur' = 0
-    /\ infl' = FALSE
+    /\ infl' = {}
     /\ bad' = {}
 
 (* Replays the polls of one call against the scripts. *)
@@ -213,7 +213,7 @@ Walk(ps, acc) ==
              a == Head(ps)[2]
          IN IF s <= 0
             THEN Walk(Tail(ps), [acc EXCEPT !.np = @ + (IF a = PEND THEN 1 ELSE 0),
-                                            !.infl = IF s = -1 THEN a = PEND ELSE @])
+                                            !.infl = IF s = 0 THEN @ ELSE IF a = PEND THEN @ \cup {s} ELSE @ \ {s}])
             ELSE IF s \notin DOMAIN acc.rem THEN [acc EXCEPT !.ok = FALSE]
             ELSE LET want == IF acc.rem[s] = <<>> THEN ENDV ELSE Head(acc.rem[s])
                  IN Walk(Tail(ps),
@@ -254,9 +254,9 @@ MCall(polls, st, items, hint) ==
             \* protocol: only a FusedPull bound allows polling an upstream beyond its end
             \cup Rule(w.repoll, "nonfused-upstream-polled-after-its-end")
             \* P4: size hints bracket what is still to come (while the pull is live, or fused)
-            \cup Rule((~late \/ fusedT) /\ IsPrefix(em, ref) /\ hiBad /\ w.infl,
+            \cup Rule((~late \/ fusedT) /\ IsPrefix(em, ref) /\ hiBad /\ w.infl # {},
                       "size-hint-upper-below-remaining-while-future-in-flight")
-            \cup Rule((~late \/ fusedT) /\ IsPrefix(em, ref) /\ hiBad /\ ~w.infl,
+            \cup Rule((~late \/ fusedT) /\ IsPrefix(em, ref) /\ hiBad /\ w.infl = {},
                       "size-hint-upper-below-remaining")
             \cup Rule((~late \/ fusedT) /\ IsPrefix(em, ref) /\ loBad,
                       "size-hint-lower-above-remaining")
